@@ -40,6 +40,7 @@ import Swiftness.Spec.FoldSpec
 import Swiftness.Proofs.FriSoundVerify
 import Swiftness.Proofs.FriSoundChain
 import Swiftness.Proofs.FriSoundLast
+import Swiftness.Proofs.FriSoundExample
 import Swiftness.Props.C06
 
 namespace Swiftness.C07
@@ -363,16 +364,37 @@ theorem fri_verify_sound (H : Hashes) (queries : List Felt) (c : Commitment)
             Collision H ∨ ManyCollision H ∨ MaskedCollision H) :=
   Proofs.FriSound.fri_verify_sound queries c values points w hok hne hs hb
 
+/-- … with the range condition derived as well, from any bound function `B` as in `trace_range` with
+    `B (i+1) ≤ 2^h_i` (for the honest configuration: `B i = 2^(log_input_size − Σ_{j ≤ i} step_j)`,
+    `h_i = log_input_size − Σ_{j ≤ i+1} step_j`). -/
+theorem fri_verify_sound_ranged (H : Hashes) (queries : List Felt) (c : Commitment)
+    (values points : List Felt) (w : List LayerWitness)
+    (hok : Fri.verify H queries c values points w = .ok ())
+    (hne : queries ≠ []) (hs : (queries.map (·.val)).Pairwise (· < ·))
+    (hb : ∀ x ∈ queries, x.val < 2 ^ 64)
+    (B : Nat → Nat) (hB0 : ∀ x ∈ queries, x.val < B 0)
+    (hB : ∀ i, i < (c.config.nLayers - 1).val → ∀ st, c.config.friStepSizes[i + 1]? = some st →
+      B i ≤ B (i + 1) * (Felt.pow 2 st.val).val) :
+    ∃ q nl, AcceptTrace H queries c values points w q nl ∧
+      ∀ i, i < (c.config.nLayers - 1).val →
+        ∀ (nf : Felt) (h : Nat) (nc : Felt) (cell : Nat → Nat → Felt),
+        c.innerLayers[i]? = some ⟨nc, ⟨⟨Felt.ofNat h, nf⟩, tableRoot H nf h nc.val cell⟩⟩ →
+        h ≤ 250 → B (i + 1) ≤ 2 ^ h →
+        ∃ wi e st, w[i]? = some wi ∧ c.evalPoints[i]? = some e ∧
+          c.config.friStepSizes[i + 1]? = some st ∧
+          ((LayerBound nc cell (q i) wi.leaves (Felt.pow 2 st.val) e (nl i) ∧
+              ∃ extra, wi.auths = authPath H nf h (tableLeaf H nf h nc.val cell)
+                ((nl i).verifyIndices.map (·.val)) ++ extra) ∨
+            Collision H ∨ ManyCollision H ∨ MaskedCollision H) :=
+  Proofs.FriSound.fri_verify_sound_ranged queries c values points w hok hne hs hb B hB0 hB
+
 /-! ### non-vacuity for 1.–3. (model numerals) -/
 
-/-- a one-layer configuration (no inner layers): last layer = the constant polynomial `5` -/
-def exCommitment : Commitment :=
-  { config := { logInputSize := 0, nLayers := 1, innerLayers := [], friStepSizes := [0],
-                logLastLayerDegreeBound := 0 },
-    innerLayers := [], evalPoints := [], lastLayerCoefficients := [5] }
-
-/-- … is accepted on the query `0` with value `5` at the point `3` (so the hypotheses of
-    `verify_accept_shape`, `verify_accept_len`, `verify_accept_layers` are satisfiable), -/
+open Swiftness.Proofs.FriSound (exCommitment) in
+/-- `exCommitment` (`Proofs/FriSoundExample.lean`): a one-layer configuration (no inner layers), last
+    layer = the constant polynomial `5`.  It is accepted on the query `0` with value `5` at the point
+    `3`, so the hypotheses of `verify_accept_shape`, `verify_accept_len`, `verify_accept_layers` are
+    satisfiable; -/
 example (H : Hashes) : Fri.verify H [0] exCommitment [5] [3] [] = .ok () := by
   have h1 : gatherFirstLayer [0] [5] [3] = .ok [⟨0, 5, 1⟩] := by decide +kernel
   have h2 : verifyLastLayer [⟨0, 5, 1⟩] [5] = .ok () := by decide +kernel
@@ -385,6 +407,7 @@ example (H : Hashes) : Fri.verify H [0] exCommitment [5] [3] [] = .ok () := by
   · intro i hi; rw [h3] at hi; exact absurd hi (Nat.not_lt_zero _)
   · intro i hi; rw [h3] at hi; exact absurd hi (Nat.not_lt_zero _)
 
+open Swiftness.Proofs.FriSound (exCommitment) in
 /-- … and with two coefficients instead of `2^0 = 1` it is rejected by `last_layer_len_exact`. -/
 example (H : Hashes) :
     Fri.verify H [0] { exCommitment with lastLayerCoefficients := [5, 0] } [5] [3] [] ≠ .ok () :=
@@ -429,6 +452,32 @@ example (H : Hashes) (nf : Felt) (cs : List Felt) (b : Felt) :
     rcases hi with rfl | rfl <;> decide +kernel
   · rw [hval]
     exact hdec
+
+/-- **An accepted run with an inner layer**, for every `H`, `nf`, `c0`, `c1`, `b`: input `c0 + c1·X` on
+    the size-8 domain, queries `2, 5`, one fold of step 1 committed as a 4×2 table, last layer the
+    constant `2·(c0 + b·c1)` (`Proofs/FriSoundExample.lean`) — so the hypotheses of
+    `verify_accept_layers` and of `fri_verify_sound` (non-empty, sorted, `< 2^64`) are satisfiable
+    with a non-trivial trace, and `innerLayers[0]` has the form required there with `h = 2`. -/
+example (H : Hashes) (nf c0 c1 b : Felt) :
+    Fri.verify H [((2 : ℕ) : Felt), ((5 : ℕ) : Felt)] (Proofs.FriSound.exCom H nf c0 c1 b)
+        [evalL [c0, c1] (Proofs.FriSound.exPt 2), evalL [c0, c1] (Proofs.FriSound.exPt 5)]
+        [3 * Proofs.FriSound.exPt 2, 3 * Proofs.FriSound.exPt 5]
+        (Proofs.FriSound.exWitness H nf c0 c1) = .ok () ∧
+      [((2 : ℕ) : Felt), ((5 : ℕ) : Felt)] ≠ [] ∧
+      ([((2 : ℕ) : Felt), ((5 : ℕ) : Felt)].map (·.val)).Pairwise (· < ·) ∧
+      (∀ x ∈ [((2 : ℕ) : Felt), ((5 : ℕ) : Felt)], x.val < 2 ^ 64) ∧
+      (Proofs.FriSound.exCom H nf c0 c1 b).innerLayers[0]? =
+        some ⟨Felt.ofNat 2, ⟨⟨Felt.ofNat 2, nf⟩,
+          tableRoot H nf 2 (Felt.ofNat 2).val (Proofs.FriSound.exCell c0 c1)⟩⟩ := by
+  have hval : (Felt.ofNat 2).val = 2 := by decide +kernel
+  refine ⟨Proofs.FriSound.example_accepted H nf c0 c1 b, by simp, ?_, ?_, ?_⟩
+  · show ([Felt.ofNat 2, Felt.ofNat 5].map (·.val)).Pairwise (· < ·)
+    decide +kernel
+  · show ∀ x ∈ [Felt.ofNat 2, Felt.ofNat 5], x.val < 2 ^ 64
+    intro x hx
+    simp only [List.mem_cons, List.not_mem_nil, or_false] at hx
+    rcases hx with rfl | rfl <;> decide +kernel
+  · rw [hval]; rfl
 
 /-! ## 4. evaluation point -/
 
